@@ -439,14 +439,12 @@ impl Model {
                             why: "inconsistent headers".into(),
                         };
                     }
-                    if validated && valid_ack != Some(true) {
-                        // later segments of a validated flow: acceptance with another ack
-                        // number is not specified; the flow's state is unspecified afterwards
+                    if validated && valid_ack != Some(true) && f & (F_RST | F_SYN | F_FIN) != 0 {
                         tbl.flows.get_mut(&key).unwrap().muddled = true;
                         return L4Expect::DataMaybe {
                             seq,
                             ack,
-                            why: "validated flow, ack != cookie+1".into(),
+                            why: "validated flow, ack != cookie+1, extra flags".into(),
                         };
                     }
                     let ctx = AppCtx {
@@ -690,12 +688,19 @@ impl Model {
             P_ICMP => {
                 if p.len() < 4 || ones_sum(&[p]) != 0xffff {
                     j.findings.push(finding("C04", "icmp-csum", "bad ICMP checksum".into()));
+                    if p.first() == Some(&0) {
+                        // a message a receiver discards is not the Echo Reply C05 promises
+                        j.findings.push(finding("C05", "echo4-reply-checksum", "echo reply with an invalid ICMP checksum".into()));
+                    }
                 }
             }
             P_ICMP6 => {
                 let ps = pseudo(&rp.src, &rp.dst, P_ICMP6, p.len());
                 if p.len() < 4 || ones_sum(&[&ps, p]) != 0xffff {
                     j.findings.push(finding("C04", "icmp6-csum", "bad ICMPv6 checksum".into()));
+                    if p.first() == Some(&129) || p.first() == Some(&136) {
+                        j.findings.push(finding("C05", "icmp6-reply-checksum", format!("ICMPv6 type {} reply with an invalid checksum", p[0])));
+                    }
                 }
                 if p.first() == Some(&136) && rp.ttl != 255 {
                     j.findings
